@@ -1093,3 +1093,15 @@ func sortedStrings(m map[string]int) []string {
 	sort.Strings(ks)
 	return ks
 }
+
+// callAllRows calls the accessor `name` (Row / RowKV) for every index below rows; "" when fine.
+func callAllRows(col proto.Column, name string, rows int) string {
+	m := reflect.ValueOf(col).MethodByName(name)
+	if !m.IsValid() || m.Type().NumIn() != 1 {
+		return ""
+	}
+	for i := 0; i < rows; i++ {
+		m.Call([]reflect.Value{reflect.ValueOf(i)})
+	}
+	return ""
+}
